@@ -243,7 +243,7 @@ def compare_two(a, b, other):
 
 # ---------------------------------------------------------------------------- operators: every spelling combination of integral operands
 OP_BIN = ['+', '-', '*', '/', '%', '**', '==', '!=', '<', '<=', '>', '>=', '&&', '||']
-OP_INTS = [0, 1, 2, 3, -1, -2, -8, 7, 10, 16, 255, 1000, -99999, 4294967296, 123456789012345, 999999999999999]
+OP_INTS = [0, 1, 2, 3, -1, -2, -8, 7, 10, 16, 23, 34, 255, 1000, -99999, 4294967296, 123456789012345, 999999999999999]
 OP_FRACS = [0.5, -2.25, 1.5, 1e-3]
 
 
